@@ -624,3 +624,30 @@ pub fn pawn_phalanx_position(rng: &mut Rng) -> Pos {
         }
     }
 }
+
+/// A position (from seeded games) in which some move mates although the piece that moves does
+/// not itself give the check: a discovered (or double) check. None if none turned up.
+pub fn discovered_mate_position(rng: &mut Rng) -> Option<Pos> {
+    for _ in 0..40 {
+        let plies = 20 + rng.usize_below(80);
+        let (_, ps) = playout(rng, &Pos::startpos(), plies, 2);
+        for p in ps.iter().rev() {
+            for m in p.legal_moves() {
+                if m.flags & F_CASTLE != 0 {
+                    continue;
+                }
+                let after = p.make(&m);
+                if !after.in_check() || !after.legal_moves().is_empty() {
+                    continue;
+                }
+                // still check with the moved piece taken off the board?
+                let mut without = after.clone();
+                without.sq[m.to as usize] = EMPTY;
+                if without.in_check() {
+                    return Some(p.clone());
+                }
+            }
+        }
+    }
+    None
+}
